@@ -59,6 +59,13 @@ func GenC07(r *core.Rand, tier string) core.Schedule {
 	}
 	n := r.Range(8, 30)
 	slots := 0
+	if r.Chance(0.06) {
+		// a table of a few thousand small pairs: backup file, restore stream and recovery snapshot cross several
+		// 64 KiB blocks of the snappy framing and several proposal batches, with record boundaries at every
+		// offset relative to them
+		steps = append(steps, Step{Op: "load", T: r.Intn(cfg.InitialTables), N: r.Intn(cfg.Leaders), Cnt: r.Range(900, 3000), K: int(r.Uint64() >> 44)})
+		n = r.Range(6, 14) + len(steps)
+	}
 	for len(steps) < n {
 		t := r.Intn(cfg.InitialTables)
 		switch r.Pick([]int{50, 15, 12, 12, 6, 5}) {
